@@ -144,7 +144,7 @@ def icode_siblings(st, rng, chain=None):
     return mk_structure(out)
 
 
-def split_residue(st, rng):
+def split_residue(st, rng, base_together=False):
     """one residue's atom records are not contiguous: its second half is listed after the following residue, so the
     structure holds two entries with the same identifiers (what the reader builds from such a file); None when there
     is no suitable residue"""
@@ -154,6 +154,16 @@ def split_residue(st, rng):
         return None
     i = rng.choice(cand)
     r = rs[i]
+    if base_together:
+        # backbone / sugar atoms first, the whole base after the following residue (only one of the two entries has a base)
+        from rnapolis.tertiary import BASE_ATOMS
+        names = set(BASE_ATOMS.get(r.one_letter_name, []))
+        a1 = [a for a in r.atoms if a.name not in names]
+        a2 = [a for a in r.atoms if a.name in names]
+        if not a1 or not a2:
+            return None
+        first, second = mk_residue(r, a1), mk_residue(r, a2)
+        return mk_structure(rs[:i] + [first, rs[i + 1], second] + rs[i + 2:])
     k = rng.randint(2, len(r.atoms) - 2)
     first = mk_residue(r, list(r.atoms[:k]))
     second = mk_residue(r, list(r.atoms[k:]))
